@@ -8,7 +8,7 @@ import Rare.Model.C15Tail
         for filename := range filenames {
             wg.Add(1)
             go func(filename string) {                       -- one FOLLOWER goroutine per file
-                defer func() { wg.Done(); out.stopFileReading(filename) }()
+                defer func() { out.stopFileReading(filename); wg.Done() }()
                 r, err := followreader.New(filename, reopen, poll)
                 if err != nil { …; out.incErrors(); return }  -- a follower without batches that ends at once
                 if tail { r.Drain() … }
